@@ -50,6 +50,8 @@ type modelCfg struct {
 	// Resal: after building, incrementally re-submit rule Resal[0] with the salience it has in Rules
 	// (the set was first built with salience Resal[1] for it)
 	Resal []int64 `json:"resal,omitempty"`
+	// ViaPool: Model names a GenginePool execute method; the call goes through a pool (1,2)
+	ViaPool bool `json:"via_pool,omitempty"`
 	// Repeats: the name list repeats a name. The statement does not say how often a repeated name runs,
 	// so only this is judged: no unselected rule runs, every named existing rule runs at least once,
 	// and a list without any existing name fails without running anything.
@@ -194,6 +196,20 @@ func modelScenarioWith(cfg modelCfg, prebuilt *builder.RuleBuilder) *hx.Scenario
 		cnt  *Counters
 		cnt2 *Counters
 	}
+	var poolTemplate *engine.GenginePool
+	var pm *gx.PoolMethod
+	if cfg.ViaPool {
+		pm = gx.PoolMethodByName(cfg.Model)
+		if pm == nil {
+			vsched.InternalError("no pool method %s", cfg.Model)
+		}
+		var err error
+		poolTemplate, err = engine.NewGenginePool(1, 2, engine.SortModel, gx.RulesText(cfg.specs()), map[string]interface{}{})
+		if err != nil {
+			vsched.InternalError("pool: %v", err)
+		}
+	}
+	var livePool *engine.GenginePool
 	call := func(g *engine.Gengine, l *gx.Log, cnt *Counters) (error, interface{}) {
 		stag := &engine.Stag{}
 		inj := map[string]interface{}{"cnt": cnt, "stag": stag}
@@ -201,6 +217,16 @@ func modelScenarioWith(cfg modelCfg, prebuilt *builder.RuleBuilder) *hx.Scenario
 			for k, v := range faultData() {
 				inj[k] = v
 			}
+		}
+		if cfg.ViaPool {
+			// the same call through the pool's wrapper of the model: observers travel as request data
+			if livePool == nil {
+				livePool = gx.DeepClone(poolTemplate).(*engine.GenginePool)
+			}
+			inj["ev"], inj["ev3"], inj["boom"] = l.Ev, l.Ev3, l.Boom
+			err, _, pan := gx.PoolCallGuarded(pm, livePool, inj, gx.PoolCallParams{B: cfg.B, N: cfg.N, M: cfg.M, Names: cfg.Names, Stag: stag})
+			vsched.WaitOthersDone()
+			return err, pan
 		}
 		rb := gx.Fresh(src, l, inj)
 		return gx.CallGuarded(func() error {
@@ -221,6 +247,7 @@ func modelScenarioWith(cfg modelCfg, prebuilt *builder.RuleBuilder) *hx.Scenario
 		},
 		Body: func(s interface{}) {
 			x := s.(*st)
+			livePool = nil
 			g := engine.NewGengine()
 			x.err, x.pan = call(g, x.log, x.cnt)
 			x.res, _ = g.GetRulesResultMap()
